@@ -292,4 +292,172 @@ theorem above_steps (env : Env) (base : List Frame) (us : Vector Nat 8) (d n : N
       · cases hrun
     · cases hrun
 
+/-! ### a local call and its matching return -/
+
+theorem reg10_setIfInBounds_ne (r : Vector (BitVec 64) 11) (d : Nat) (v : BitVec 64) (h : d ≠ 10) :
+    (r.setIfInBounds d v)[10]? = r[10]? := Vector.getElem?_setIfInBounds_ne h
+
+/-- the frame popped by a step that brings the depth back to the caller's is the frame the call pushed -/
+theorem call_return (env : Env) (s s1 s2 s3 : State) (imm : BitVec 32) (n : Nat)
+    (hcall : callLocal s imm = .next s1) (hrun : stepsAbove env s.depth n s1 = some s2)
+    (hret : step env s2 = .next s3) (hd : s3.depth = s.depth) :
+    (∀ i, 6 ≤ i → i ≤ 9 → s3.reg[i]? = s.reg[i]?) ∧ s3.pc = s.pc ∧ (∀ i, i < 6 → s3.reg[i]? = s2.reg[i]?) ∧
+    (s2.reg[10]? = s1.reg[10]? → s3.reg[10]? = s.reg[10]?) ∧ s3.frames = s.frames ∧
+    s2.depth = s.depth + 1 := by
+  obtain ⟨r6, r7, r8, r9, r10, h6, h7, h8, h9, h10, _, _, _, hs1⟩ := callLocal_next _ _ _ hcall
+  have hinv1 : Above ({ ret := s.pc, saved := (r6, r7, r8, r9) } :: s.frames) s.usage s1 := by
+    subst hs1; exact ⟨⟨[], rfl⟩, fun _ _ => rfl⟩
+  have hinv := above_steps env _ s.usage s.depth n (by simp [State.depth]) s1 s2 hinv1 hrun
+  obtain ⟨insn, _, hex⟩ := step_next env s2 s3 hret
+  obtain ⟨pre, hpre⟩ := hinv.frames
+  have hdep2 : s2.depth = pre.length + 1 + s.depth := by simp [State.depth, hpre]; omega
+  rcases exec_next_cases env _ s3 insn hex with ⟨_, _, hc⟩ | ⟨_, hx⟩ | ⟨_, hf, _, _⟩ | ⟨d, _, hp⟩
+  · obtain ⟨_, _, _, _, _, _, _, _, _, _, _, _, _, rfl⟩ := callLocal_next _ _ _ hc
+    simp only [State.depth, List.length_cons, stepPre_frames] at hd hdep2
+    omega
+  · obtain ⟨f, rest, r10', hfr, h10', rfl⟩ := exitInsn_next _ _ hx
+    rw [stepPre_frames, hpre] at hfr
+    simp only [State.depth] at hd
+    have hl := congrArg List.length hfr
+    simp only [List.length_append, List.length_cons] at hl
+    have hnil : pre = [] := List.eq_nil_of_length_eq_zero (by omega)
+    subst hnil
+    simp only [List.nil_append, List.cons.injEq] at hfr
+    obtain ⟨hf, hrest⟩ := hfr
+    subst hf
+    subst hrest
+    rw [stepPre_reg] at h10'
+    refine ⟨?_, rfl, ?_, ?_, rfl, by simp at hdep2; omega⟩
+    · intro i hi1 hi2
+      have : i = 6 ∨ i = 7 ∨ i = 8 ∨ i = 9 := by omega
+      rcases this with rfl | rfl | rfl | rfl
+      · simpa [Vector.getElem?_setIfInBounds] using h6.symm
+      · simpa [Vector.getElem?_setIfInBounds] using h7.symm
+      · simpa [Vector.getElem?_setIfInBounds] using h8.symm
+      · simpa [Vector.getElem?_setIfInBounds] using h9.symm
+    · intro i hi
+      simp only []
+      rw [Vector.getElem?_setIfInBounds_ne (by omega), Vector.getElem?_setIfInBounds_ne (by omega),
+        Vector.getElem?_setIfInBounds_ne (by omega), Vector.getElem?_setIfInBounds_ne (by omega),
+        Vector.getElem?_setIfInBounds_ne (by omega), stepPre_reg]
+    · intro h21
+      have hu : (stepPre env s2).usage[s.frames.length]? = s.usage[s.frames.length]? := by
+        rw [stepPre_usage env s2 _ (by simp only [State.depth] at hdep2 ⊢; omega)]
+        exact hinv.usage _ (by simp)
+      have h1 : s1.reg[10]? = some (r10 - BitVec.ofNat 64 ((s.usage[s.depth]?).getD 0)) := by
+        subst hs1; simp
+      rw [h21, h1] at h10'
+      cases h10'
+      simp only [State.depth] at *
+      rw [hu, h10]
+      simp [BitVec.sub_add_cancel]
+  · have : s3.depth = s2.depth := by simp only [State.depth]; rw [hf, stepPre_frames]
+    omega
+  · obtain ⟨hf, _, _⟩ := hp s3 rfl
+    have : s3.depth = s2.depth := by simp only [State.depth]; rw [hf, stepPre_frames]
+    omega
+
+/-! ### r10 across a run above a depth, when no instruction but call and exit writes it -/
+
+theorem bv_sub_add_add (r x S : BitVec 64) : (r - x) + (S + x) = r + S := by
+  rw [BitVec.add_comm S x, ← BitVec.add_assoc, BitVec.sub_add_cancel]
+
+theorem bv_add_right_comm (r y S : BitVec 64) : (r + y) + S = r + (S + y) := by
+  rw [BitVec.add_assoc, BitVec.add_comm y S]
+
+/-- r10 bookkeeping of a run above the depth of `base`: r10 plus the frame sizes of the calls still
+    open above `base` is the value `r1` r10 had when the run started -/
+def Above10 (base : List Frame) (r1 : BitVec 64) (t : State) : Prop :=
+  ∃ pre r, t.frames = pre ++ base ∧ t.reg[10]? = some r ∧ r + usum t.usage base.length pre.length = r1
+
+theorem above10_step (env : Env) (hro : R10ReadOnly env.prog) (base : List Frame) (r1 : BitVec 64)
+    (t t' : State) (hinv : Above10 base r1 t) (hstep : step env t = .next t') (hd : base.length ≤ t'.depth) :
+    Above10 base r1 t' := by
+  obtain ⟨insn, hgi, hex⟩ := step_next env t t' hstep
+  obtain ⟨pre, r, hpre, hr, hsum⟩ := hinv
+  have hdep : t.depth = pre.length + base.length := by simp [State.depth, hpre]
+  have hPsum : ∀ n, n ≤ pre.length → usum (stepPre env t).usage base.length n = usum t.usage base.length n :=
+    fun n hn => usum_congr _ _ _ _ (fun k _ hk => stepPre_usage env t k (by omega))
+  have hPr : (stepPre env t).reg[10]? = some r := by rw [stepPre_reg]; exact hr
+  have hdst : insn.dst.toNat = 10 → writesDst insn.opc → False := by
+    intro h10 hw
+    rcases hro _ _ hgi h10 with h | h | h
+    · rw [hw.1] at h; cases h
+    · rw [hw.2.1] at h; cases h
+    · exact hw.2.2 h
+  rcases exec_next_cases env _ t' insn hex with ⟨_, _, hc⟩ | ⟨_, hx⟩ | ⟨hop, hf, hu, v, hv⟩ | ⟨d, hdd, hp⟩
+  · obtain ⟨r6, r7, r8, r9, r10, _, _, _, _, h10, _, _, _, rfl⟩ := callLocal_next _ _ _ hc
+    rw [hPr] at h10; cases h10
+    refine ⟨{ ret := (stepPre env t).pc, saved := (r6, r7, r8, r9) } :: pre,
+      r - BitVec.ofNat 64 ((stepPre env t).usage[(stepPre env t).depth]?.getD 0), ?_, ?_, ?_⟩
+    · simp [stepPre_frames, hpre]
+    · simp
+    · simp only [List.length_cons, usum, hPsum _ (Nat.le_refl _)]
+      have : (stepPre env t).depth = base.length + pre.length := by
+        simp only [State.depth, stepPre_frames]; simp only [State.depth] at hdep; omega
+      rw [this, bv_sub_add_add]; exact hsum
+  · obtain ⟨f, rest, r10, hfr, h10, rfl⟩ := exitInsn_next _ _ hx
+    rw [hPr] at h10; cases h10
+    rw [stepPre_frames, hpre] at hfr
+    cases pre with
+    | nil =>
+      have hl := congrArg List.length hfr
+      simp only [List.nil_append, List.length_cons] at hl
+      simp only [State.depth] at hd
+      omega
+    | cons p pre' =>
+      simp only [List.cons_append, List.cons.injEq] at hfr
+      obtain ⟨_, hrest⟩ := hfr
+      subst hrest
+      refine ⟨pre', r + BitVec.ofNat 64 ((stepPre env t).usage[(pre' ++ base).length]?.getD 0), rfl, by simp, ?_⟩
+      simp only [List.length_cons, usum] at hsum
+      simp only [List.length_append]
+      rw [hPsum _ (by simp), stepPre_usage env t _ (by simp [hdep])]
+      rw [bv_add_right_comm, Nat.add_comm pre'.length base.length]; exact hsum
+  · have hne : insn.dst.toNat ≠ 10 := by
+      intro h10
+      rcases hro _ _ hgi h10 with h | h | h <;> rw [hop] at h <;> revert h <;> decide
+    refine ⟨pre, r, by rw [hf, stepPre_frames, hpre], ?_, ?_⟩
+    · rw [hv, reg10_setIfInBounds_ne _ _ _ hne]; exact hPr
+    · rw [hu, hPsum _ (Nat.le_refl _)]; exact hsum
+  · obtain ⟨hf, hu, hreg⟩ := hp t' rfl
+    refine ⟨pre, r, by rw [hf, stepPre_frames, hpre], ?_, ?_⟩
+    · rcases hreg with h | ⟨v, h⟩
+      · rw [h]; exact hPr
+      · rw [h, reg10_setIfInBounds_ne _ _ _ ?_]; exact hPr
+        rcases hdd with rfl | ⟨rfl, hw⟩
+        · decide
+        · exact fun h10 => hdst h10 hw
+    · rw [hu, hPsum _ (Nat.le_refl _)]; exact hsum
+
+theorem above10_steps (env : Env) (hro : R10ReadOnly env.prog) (base : List Frame) (r1 : BitVec 64)
+    (d n : Nat) (hb : base.length = d + 1) (t t' : State) (hinv : Above10 base r1 t)
+    (hrun : stepsAbove env d n t = some t') : Above10 base r1 t' := by
+  induction n generalizing t with
+  | zero => simp only [stepsAbove, Option.some.injEq] at hrun; subst hrun; exact hinv
+  | succ n ih =>
+    simp only [stepsAbove] at hrun
+    split at hrun
+    · rename_i t1 hstep
+      split at hrun
+      · rename_i hd
+        exact ih t1 (above10_step env hro base r1 t t1 hinv hstep (by omega)) hrun
+      · cases hrun
+    · cases hrun
+
+/-- with r10 read-only, the callee returns with the r10 it was entered with -/
+theorem call_return_r10 (env : Env) (hro : R10ReadOnly env.prog) (s s1 s2 : State) (imm : BitVec 32) (n : Nat)
+    (hcall : callLocal s imm = .next s1) (hrun : stepsAbove env s.depth n s1 = some s2)
+    (hdep : s2.depth = s.depth + 1) : s2.reg[10]? = s1.reg[10]? := by
+  obtain ⟨r6, r7, r8, r9, r10, _, _, _, _, _, _, _, _, hs1⟩ := callLocal_next _ _ _ hcall
+  have h1 : Above10 s1.frames s1.reg[10] s1 := ⟨[], s1.reg[10], rfl, by simp, by simp [usum]⟩
+  have hb : s1.frames.length = s.depth + 1 := by subst hs1; simp [State.depth]
+  obtain ⟨pre, r, hpre, hr, hsum⟩ := above10_steps env hro _ _ s.depth n hb s1 s2 h1 hrun
+  have hl := congrArg List.length hpre
+  simp only [List.length_append] at hl
+  simp only [State.depth] at hdep hb
+  have hnil : pre = [] := List.eq_nil_of_length_eq_zero (by omega)
+  subst hnil
+  simp only [List.length_nil, usum] at hsum
+  rw [hr]; simp at hsum; simp [hsum]
 end Rbpf
